@@ -91,7 +91,8 @@ REGISTRY = {
     },
     "C07": {
         "rules": [circuit.rule_cache_check, circuit.rule_writers_invalidate, circuit.rule_copy_complete, circuit.rule_gate_registry,
-                  circuit.rule_cache_key_siblings, circuit.rule_perm_tracking, circuit.rule_ctor_binding, record.rule_clients],
+                  circuit.rule_cache_key_siblings, circuit.rule_perm_tracking, circuit.rule_ctor_binding, record.rule_clients,
+                  P(order.rule_where_sorted_with_operator, modules=("quimb.tensor.circuit",), rule="where-sorted-with-operator[circuit]", floor=3)],
         "explanation": (
             "static: decides (narrowly) the cache-staleness discipline of the circuit simulators (every memo access is preceded by "
             "the gate-count check; every parameter / state rewrite that keeps the gate count clears the memos), completeness of "
